@@ -307,7 +307,45 @@ def _trainer_defaults(cls):
 for _t in TRAINER_CTORS:
     _trainer_defaults(_t)
 
+
+@contract(P, "CellTrainer.add_monitor[forwards to the pool]", [(LBASE, "CellTrainer.add_monitor"), (LBASE, "CellTrainer.__init__")], tags=("wiring",), min_obligations=2)
+def trainer_add_monitor(c):
+    """the link between the wiring tables above (recorded at the trainer's add_monitor) and the monitor pool: everything a
+    rule passes - cell, monitor name, attribute, constructor, the unique flag AND the pooling tags (dt / amplitude / time
+    constant ...: monitors with different settings must never be pooled) - reaches MonitorPool.add_monitor unchanged, and an
+    unknown cell is refused"""
+    from pyvc import repo
+    from pyvc.interp import Obj
+
+    cv = c.interp.classv(repo.load_module(LBASE).classes["CellTrainer"])
+    tr = c.interp.instantiate(cv, [], {})
+    calls = []
+    pool = Obj(None, "monitor_pool")
+    pool.fields["add_monitor"] = Model(lambda it, *a, **kw: (calls.append((a, kw)), "<monitor>")[1], "MonitorPool.add_monitor")
+    tr.fields["monitor_pool_"] = pool
+    cells = tr.fields.get("cells_")
+    known = c.choice("cell", ["registered", "unknown"])
+    if isinstance(cells, dict):
+        cells["a"] = Obj(None, "cell")
+    else:
+        tr.fields["cells_"] = {"a": Obj(None, "cell")}
+    unique = c.choice("unique", [False, True])
+    dtv, amp = c.real("dt"), c.real("amp")
+    out = c.outcome(c.getattr(tr, "add_monitor"), "a" if known == "registered" else "b", "trace_pre", "connection.synspike", "<ctor>", unique, dt=dtv, amp=amp, tc=3.0)
+    if known == "unknown":
+        c.expect_raise(out, "AttributeError", "unknown_cell_refused")
+        c.ensure("pool_not_touched_for_an_unknown_cell", not calls)
+        return
+    c.expect_return(out)
+    ok = len(calls) == 1 and calls[0][0] == ("a", "trace_pre", "connection.synspike", "<ctor>", unique)
+    c.ensure("cell_name_attribute_constructor_and_unique_flag_forwarded", ok)
+    kw = calls[0][1] if calls else {}
+    c.ensure("pooling_tags_forwarded", sorted(kw) == ["amp", "dt", "tc"] and z3.is_true(z3.simplify(z3.And(num(kw["dt"]) == dtv.z, num(kw["amp"]) == amp.z))) and kw["tc"] == 3.0)
+    c.ensure("returns_the_pool_monitor", out.value == "<monitor>")
+    c.canary("canary_tags_dropped", z3.BoolVal(not kw))
+
 MUTANTS = [
+    dict(file=LBASE, func="CellTrainer.add_monitor", old="return self.monitor_pool_.add_monitor(cell, name, attr, monitor, unique, **tags)", new="return self.monitor_pool_.add_monitor(cell, name, attr, monitor, unique)", contracts=["CellTrainer.add_monitor[forwards to the pool]"], name="seed C08f: pooling tags dropped on the way to the pool"),
     dict(file=KS, func="DelayAdjustedKernelSTDPD._build_cell_state", old='        kernel_pre_kwargs = kwargs.get(\n            "kernel_pre_kwargs",', new='        kernel_pre_kwargs = kwargs.get(\n            "kernel_post_kwargs",', contracts=["DelayAdjustedKernelSTDPD.defaults"], name="seed C18f: the presynaptic kernel arguments are overridden by the POSTsynaptic per-cell override"),
     dict(file=T3, func="MSTDPET.register_cell", old='                reducer=state.tracecls(\n                    cell.connection.dt,\n                    state.tc_pre,', new='                reducer=CumulativeTraceReducer(\n                    cell.connection.dt,\n                    state.tc_pre,', contracts=["MSTDPET.register_cell"], name="seed C08e: presynaptic trace ignores the configured trace mode"),
     dict(file=KS, func="DelayAdjustedKernelSTDP.__init__", old="        self.batchreduce = batch_reduction if batch_reduction else torch.mean", new="        self.batchreduce = batch_reduction if batch_reduction else torch.sum", contracts=["DelayAdjustedKernelSTDP.defaults"], name="seed C18b: default batch reduction sum instead of the documented mean"),
